@@ -303,7 +303,7 @@ func (dp *DataPublisher) PublishData(records []*DataRecord) error {
 // uint64: trigFrame
 //
 //	end of first message packet
-//	modelCoefs, each coef is float32, length can vary
+//	modelCoefs, each coef is float64, length can vary
 func messageSummaries(rec *DataRecord) [][]byte {
 	const headerVersion = uint16(0)
 
